@@ -261,7 +261,10 @@ def job_selection(job):
         lab, model = fails_col[0]
         model = model or {}
         streams = [[model.get('s%d' % i, 0) for i in range(total)]]
-        streams += [[rnd.randrange(256) for _ in range(total)] for _ in range(40)]
+        # the symbolic failure is structural; a concrete payload on which it changes the selected mask can be rare
+        # (a few percent): search more streams on small versions where a native build + 8 reference penalties is cheap
+        ntry = 600 if v <= 2 else (150 if v <= 6 else 25)
+        streams += [[rnd.randrange(256) for _ in range(total)] for _ in range(ntry)]
         level = model.get('lvl', 0) % 4
         st, ms, pens, tried = selection_witness(native, v, level, streams)
         if st is not None:
